@@ -141,7 +141,24 @@ func runPipeline(g *scheduler.ExecutionGraph, taskRunner *runner.TaskRunner, sum
 		printSummary(g)
 	}
 
+	// Schedule reports no error when it cancelled the run because a stage condition could not be
+	// evaluated; the stage is left in the error state and the pipeline did not succeed
+	if name := erroredStage(g); name != "" {
+		return fmt.Errorf("stage %s failed", name)
+	}
+
 	return nil
+}
+
+// erroredStage returns the name of a stage of g that ended in the error state
+func erroredStage(g *scheduler.ExecutionGraph) string {
+	for name, stage := range g.Nodes() {
+		if stage.ReadStatus() == scheduler.StatusError {
+			return name
+		}
+	}
+
+	return ""
 }
 
 func runTask(t *task.Task, taskRunner *runner.TaskRunner) error {
